@@ -15,8 +15,11 @@ SPEC = {
         "reference under atoms_ok, which K stream (d) evaluates on the REAL sub-patterns and atoms of the compiled rules (hook Rules::verif_c01_dump); "
         "the search automaton is assumed to report exactly the atom occurrences (hits_exact: any order); for Base64* the link model -> specification "
         "is stated, not proved (the 9-entry table is)",
-        "the Thompson/PikeVM/FastVM engines, chains at run time, Teddy and Aho-Corasick are not modelled: they are tied to the specification only by the "
-        "differential stream (b) (every reported match checked by genuine_b, every required start looked for)",
+        "chains of literal pieces at run time (handle_sub_pattern_match, within_valid_distance, verify_chain_of_matches with chain_length pruning and "
+        "the greedy reset walk) are modelled (Pat/ChainRun.v) and compared exactly on the REAL pieces and atoms in K stream (e); the atom hits are "
+        "assumed to arrive ordered by start offset (vector kernel) or by end offset (automaton), both orders are accepted; chain_sound is not proved yet",
+        "the Thompson/PikeVM/FastVM engines, chains with regexp pieces, Teddy and Aho-Corasick are not modelled: they are tied to the specification only by the "
+        "differential streams (every reported match checked by genuine_b, every required start looked for)",
         "Vec growth policy and slice::binary_search_by are trusted std behaviour (modelled literally; search_std_eq proves the abstraction used)",
         "completeness is demanded for starts whose genuine lengths are all within re::DEFAULT_SCAN_LIMIT and while the pattern has fewer than "
         "max_matches_per_pattern matches; generated buffers are <= 300 bytes, so the scan limit is never the reason for a miss in K",
@@ -36,14 +39,22 @@ RULE = ("stream (a), ~20%: random operation sequences on the real MatchList / Pa
         "case flipped, truncated, xor'ed, wide/ascii mixed), overlaps, occurrences at offset 0 and at the last byte, with 4 different conditions that "
         "depend on the occurrences, optionally 70 extra literals in the rule set (Aho-Corasick instead of Teddy) and max_matches_per_pattern 1..3. "
         "stream (c), ~30%: directed shapes (jump + masked byte in both directions, rule sets of 1..90 literals with occurrences at chosen offsets "
-        "mod 16, masked literals of 15..66 bytes with one-byte near-misses). stream (d), ~15%: text patterns (every modifier family) and flat hex "
+        "mod 16, masked literals of 15..66 bytes with one-byte near-misses, and one-bit perturbations: for a text pattern of each modifier family "
+        "(plain, nocase, nocase wide, fullword, xor, base64, wide) or a flat hex pattern of 5..12 bytes over letters, digits, punctuation and control "
+        "bytes, buffers made of the genuine instance with bit 5, bit 7 and a random bit of every byte flipped in turn, inside and outside the atom). "
+        "stream (e), ~12%: chains -- hex patterns and /s regexps (uniformly greedy or lazy) of 2..5 literal pieces joined by unbounded jumps and jumps "
+        "over the chaining threshold, buffers with the pieces in and out of order, repeated heads, middles and tails, near-misses and now and then "
+        ">200 bytes of filler; the real pieces (flags, links, gaps) must equal Chain.split_at_large_gaps, atoms_ok must hold for every piece, and the "
+        "run-time chain model must reproduce the reported list exactly. stream (f), ~12%: rules with 2..4 related patterns (same text with different "
+        "custom base64 alphabets, same alphabet with different text, same text with other modifiers, duplicates) scanned by ONE scanner over one or "
+        "two consecutive buffers: every (buffer, pattern) is a differential case. stream (d), ~15%: text patterns (every modifier family) and flat hex "
         "patterns with the real sub-patterns and atoms dumped from the compiled rules: the dump must equal the model of c_literal_pattern, atoms_ok "
         "must hold on the real atoms, and the pipeline model run on them must reproduce the reported list exactly (anchored `$a at N` included). "
         "Non-trivial: at least one reported match; distinct by (pattern source, buffer).")
 
 
 SYMPTOMS = [(1, "panic-or-bytes"), (2, "unsound"), (4, "order"), (8, "missed"), (16, "over-limit"), (32, "model"),
-            (64, "sub-patterns-differ-from-compile-model"), (128, "atoms_ok-false-on-real-atoms"), (256, "pipeline-model-differs")]
+            (64, "sub-patterns-differ-from-compile-model"), (128, "atoms_ok-false-on-real-atoms"), (256, "pipeline-or-chain-model-differs")]
 
 # root-cause hints computed by the harness from the pattern's AST, most specific first (the defects behind
 # them are repaired: a case classified by one of them is a regression and is reported as a VIOLATION)
@@ -169,6 +180,10 @@ def replay(d, drv):
     with open(p, "w", encoding="utf-8") as f:
         f.write(case["source"])
     args = ["--probe", p, "--data-hex", case["data_hex"]]
+    if case.get("ident"):
+        args += ["--ident", case["ident"]]
+    if case.get("prior_data_hex"):
+        args += ["--prior-hex", ",".join(case["prior_data_hex"])]
     if case.get("max_matches_per_pattern") is not None:
         args += ["--max", case["max_matches_per_pattern"]]
     rc, out, _ = run_harness(drv, "c01", args, timeout=120)
@@ -193,8 +208,10 @@ MANIFEST = {
                    "operation sequences, and the real Scanner's output for generated (pattern, buffer) pairs is checked by the proven checker."),
     "level_note": ("For the literal family (Literal, LiteralWithMask, Xor, anchored) the scan pipeline is modelled and proved equal to the reference "
                    "under atoms_ok, evaluated on the real atoms (pipeline_literal_family, compile_text_spec); for Base64* the pipeline model is compared "
-                   "exactly but its link to the specification is only stated. Regexp engines (FastVM/PikeVM), Teddy/Aho-Corasick and chains at run time "
-                   "are NOT modelled; they are covered only by the differential streams against the proven reference. "
+                   "exactly but its link to the specification is only stated. Chains of literal pieces at run time are modelled (Pat/ChainRun.v) and compared "
+                   "exactly on the real pieces and atoms, without a proof that links the model to the specification yet. Regexp engines (FastVM/PikeVM), "
+                   "Teddy/Aho-Corasick and chains with regexp pieces are NOT modelled; they are covered only by the differential streams against the "
+                   "proven reference. "
                    "Which of several genuine lengths a regexp reports, wide-fullword neighbours and undecodable base64 windows are accepted as "
                    "undocumented. Buffers are <= 300 bytes (DEFAULT_SCAN_LIMIT is stated in the spec but never reached); repetitions nested inside "
                    "repetitions are bounded in generated regexps. Trusted: Coq kernel, gen_patconsts.py, the harness and its YARA printer, the hook."),
